@@ -222,6 +222,9 @@ func runCheck(repo, verif, prop, tier, only string, verbose, writeEvidence bool)
 	var order []string
 	var solverMs int64
 	for _, o := range all {
+		if o.Prop != "" && !propMatch(o.Prop, prop) {
+			continue // clause tagged for another property only (it is still assumed along the path)
+		}
 		n := o.Name()
 		a := aggs[n]
 		if a == nil {
